@@ -89,7 +89,8 @@ def check_string(s, acc, case=None):
         acc.case()
         return None
     stripped = s.strip(R.CO_WS)
-    ref = R.split_coauthors(s) if R.balanced(stripped) else None
+    # (the rule speaks of brace depth 0: defined wherever the depth never goes below zero, also if a group stays open)
+    ref = R.split_coauthors(s) if R.never_negative(stripped) else None
     lookalike = re.search(r"(?i)an?d?", stripped) is not None
     nontrivial = (ref is not None and len(ref) > 1) or (lookalike and ref is not None)
     acc.case(sample=lambda: {"string": s, "pieces": pieces}, nontrivial_key=s if nontrivial else None)
@@ -238,6 +239,12 @@ def run_shard(shard, tier, acc):
                     check_string(s, acc)
     elif kind == "depth":
         # nesting depth / long lists: a group nested d deep at every position of a list of n names
+        # (also far deeper than any recursion limit: 1500 and 5000 levels)
+        for d in (1500, 5000):
+            grp = "{" * d + "a and b" + "}" * d
+            for sep in SEPS[:2]:
+                acc.count("depth_strings")
+                check_string("N, M." + sep + grp + " C" + sep + "O, P.", acc)
         for d in range(0, 8):
             grp = "{" * d + "a and b" + "}" * d
             for n in (1, 2, 3, 5, 9):
